@@ -1331,3 +1331,25 @@ Lemma clean_example :
   for_id 0 (dels (run fixed [0; 1] ([(OPub 0 1, clean); (OSub 0 [], clean); (OPub 1 2, clean); (OPub 0 3, clean); (ORestart, clean); (OPub 0 4, clean)]
                                     ++ [(ORestart, clean); (OSub 0 [], clean)]) init)) = [4; 3; 1].
 Proof. split; [repeat constructor | vm_compute; reflexivity]. Qed.
+
+(* F10c (known finding): two overlapping publishers and a crash.  While the live handler handles event 2 a second
+   publisher appends event 3; the first delivery's save reads the bus's lastOffset - already 3 - and the process dies
+   before event 3 is handled: after the restart the subscription resumes behind it, and event 3 is never delivered.
+   The composite step below is the interleaving observed on the real bus (suite resubrace). *)
+Definition overlap_crash (s : rs) (ty v1 v2 : nat) : rs :=
+  let s1 := with_append (begin_op s clean) {| e_ty := ty; e_val := v1 |} in
+  let pos1 := last s1 in
+  let s2 := with_append s1 {| e_ty := ty; e_val := v2 |} in
+  let s3 := fold_left (fun acc l =>
+              if Nat.eqb (snd l) ty
+              then with_saved (with_del acc {| d_id := fst l; d_val := v1; d_pos := pos1; d_sv := get_saved acc (fst l) |}) (fst l) (last acc)
+              else acc) (live s2) s2 in
+  {| log := log s3; saved := saved s3; last := last s3; live := live s3; dead := true; tickno := tickno s3;
+     budget := budget s3; failat := failat s3; dels := dels s3 |}.
+
+Lemma overlapping_publishers_lose_an_event :
+  let s1 := run fixed [0] [(OPub 0 1, clean); (OSub 0 [], clean)] init in
+  let s2 := overlap_crash s1 0 2 3 in
+  let s3 := run fixed [0] [(ORestart, clean); (OSub 0 [], clean); (OPub 0 4, clean); (ORestart, clean); (OSub 0 [], clean)] s2 in
+  map e_val (log s3) = [1; 2; 3; 4] /\ for_id 0 (dels s3) = [4; 2; 1] /\ get_saved s3 0 = 4.
+Proof. vm_compute. auto. Qed.
